@@ -142,12 +142,6 @@ Proof.
 Qed.
 
 (* ------------------------------------------------------------------ statements over histories *)
-Definition reachable (t0 : Z) (fund : Z -> Z -> Z) (allowed : list Z) (ops : list op) : state :=
-  run (init_state t0 fund allowed) ops.
-
-Lemma reachable_Inv : forall t0 fund allowed ops, 0 < t0 -> Forall op_sender_ok ops -> Inv (reachable t0 fund allowed ops).
-Proof. intros. apply run_Inv; [apply init_Inv; assumption|assumption]. Qed.
-
 (* every reference entry belongs to a live lock and one of its keys, and vice versa; no entry is duplicated *)
 Lemma refs_exact : forall t0 fund allowed ops, 0 < t0 -> Forall op_sender_ok ops ->
   let s := reachable t0 fund allowed ops in
